@@ -4,6 +4,7 @@ mod attrs;
 mod env;
 mod esc;
 mod gen;
+mod ns;
 mod obs;
 mod record_reader;
 mod reader;
@@ -92,6 +93,19 @@ fn main() {
         }
         "escape-rerun" => {
             let still = esc::rerun(&get("file", ""));
+            println!("{}", if still { "STILL-FAILS" } else { "PASSES-NOW" });
+            std::process::exit(if still { 1 } else { 0 });
+        }
+        "ns-replay" => {
+            let s = ns::replay(&get("file", ""), &get("prop", "C05"), &get("out-dir", "evidence/replay"), &get("known-dev", "C05-1"));
+            println!("SUMMARY {}", serde_json::to_string(&s).unwrap());
+        }
+        "ns-record" => {
+            let s = ns::record(&get("out", "work/ns.ndjson"), seed, get("n", "300").parse().unwrap());
+            println!("SUMMARY {}", serde_json::to_string(&s).unwrap());
+        }
+        "ns-rerun" => {
+            let still = ns::rerun(&get("file", ""));
             println!("{}", if still { "STILL-FAILS" } else { "PASSES-NOW" });
             std::process::exit(if still { 1 } else { 0 });
         }
